@@ -49,11 +49,103 @@ fn pair_case(rep: &Report, wn: &str, w: &[u8], w2n: &str, w2: &[u8], salt: &[u8;
     }
 }
 
+/// "For every plaintext length": one conforming password-mode file of 4 GiB + 3 chunks + 5 bytes (65 540 records, so it
+/// also crosses the 2^16 record count), generated record by record by REF while pass_decrypt consumes it; the sink
+/// verifies every plaintext byte. Runs on its own thread next to the rest of the check (quick: decrypt only).
+fn four_gib_stream(rep: &Report) -> Result<(), String> {
+    use std::io::{Read, Write};
+    const CSZ: usize = 65536;
+    let total: u64 = (1u64 << 32) + 3 * CSZ as u64 + 5;
+    let pw = b"c02 big".to_vec();
+    let salt = derive32(rep.seed, "c02-big-salt");
+    let key = r::pass_key(&pw, &salt);
+    fn pat(pos: u64) -> u8 {
+        (pos as u8) ^ ((pos >> 8) as u8).wrapping_mul(31) ^ ((pos >> 16) as u8) ^ ((pos >> 27) as u8)
+    }
+    struct Gen {
+        hdr: Vec<u8>,
+        hpos: usize,
+        key: [u8; 32],
+        total: u64,
+        next: u64,
+        idx: u64,
+        cur: Vec<u8>,
+        cpos: usize,
+        done: bool,
+    }
+    impl Read for Gen {
+        fn read(&mut self, buf: &mut [u8]) -> std::io::Result<usize> {
+            if self.hpos < self.hdr.len() {
+                let n = buf.len().min(self.hdr.len() - self.hpos);
+                buf[..n].copy_from_slice(&self.hdr[self.hpos..self.hpos + n]);
+                self.hpos += n;
+                return Ok(n);
+            }
+            if self.cpos == self.cur.len() {
+                if self.done {
+                    return Ok(0);
+                }
+                let l = ((self.total - self.next).min(CSZ as u64)) as usize;
+                let pt: Vec<u8> = (0..l as u64).map(|i| pat(self.next + i)).collect();
+                let last = self.next + l as u64 == self.total;
+                self.cur = r::seal_conforming(&self.key, &r::PASS_MAGIC, self.idx, last, &pt).bytes();
+                self.cpos = 0;
+                self.next += l as u64;
+                self.idx += 1;
+                self.done = last;
+            }
+            let n = buf.len().min(self.cur.len() - self.cpos);
+            buf[..n].copy_from_slice(&self.cur[self.cpos..self.cpos + n]);
+            self.cpos += n;
+            Ok(n)
+        }
+    }
+    struct Verify {
+        pos: u64,
+        bad: Option<u64>,
+    }
+    impl Write for Verify {
+        fn write(&mut self, b: &[u8]) -> std::io::Result<usize> {
+            if self.bad.is_none() {
+                for (i, &x) in b.iter().enumerate() {
+                    if x != pat(self.pos + i as u64) {
+                        self.bad = Some(self.pos + i as u64);
+                        break;
+                    }
+                }
+            }
+            self.pos += b.len() as u64;
+            Ok(b.len())
+        }
+        fn flush(&mut self) -> std::io::Result<()> {
+            Ok(())
+        }
+    }
+    let mut hdr = r::PASS_MAGIC.to_vec();
+    hdr.extend_from_slice(&salt);
+    let mut src = Gen { hdr, hpos: 0, key, total, next: 0, idx: 0, cur: vec![], cpos: 0, done: false };
+    let mut sink = Verify { pos: 0, bad: None };
+    let res = run_rw(&Subject::PassDec { pw: hx(&pw) }, &mut src, &mut sink);
+    rep.eval(1);
+    rep.nontrivial(b"four-gib-stream");
+    if !res.is_ok() {
+        return Err(format!("a conforming password-mode file of {} plaintext bytes ({} records) is rejected after {} bytes: {}", total, (total + CSZ as u64 - 1) / CSZ as u64, sink.pos, res.brief()));
+    }
+    if let Some(at) = sink.bad {
+        return Err(format!("plaintext byte {} of a {}-byte file comes out wrong", at, total));
+    }
+    if sink.pos != total {
+        return Err(format!("{} of {} plaintext bytes delivered", sink.pos, total));
+    }
+    Ok(())
+}
+
 pub fn run(rep: &'static Report) {
     let seed = rep.seed;
     rep.set_rule("E-ENV in tiny scope with the password-mode AAD (magic): every read partition, bounded write partitions, both loops, plus mismatched key/AAD pairs; E-GRID through pass_encrypt/pass_decrypt: all ordered password pairs over the 12-word alphabet x salts, and lengths x bounded short-I/O schedules. distinct non-trivial = distinct ciphertext streams round-tripped + distinct (password, other password, salt) triples");
     rep.rule_add("CLI password pairs and round trips, the latter also with KESTREL_NEW_PASSWORD holding another password.");
     rep.assume("password/plaintext values from fixed alphabets; scrypt cost bounds the public-API part (counted in evidence)");
+    let big = std::thread::spawn(move || four_gib_stream(rep));
     tiny_scope(rep, &r::PASS_MAGIC, "C02");
 
     // mismatched AAD / key between the two sides must reject and release nothing
@@ -176,6 +268,11 @@ pub fn run(rep: &'static Report) {
     rep.extra("public_api_short_io_executions", json!(execs.load(Ordering::Relaxed)));
     rep.sample(json!({"kind":"pass roundtrip","L":CS+1,"password":"(empty)","schedule":"read#1 returns 1 byte, everything else default"}));
     cli_pairs(rep);
+    match big.join() {
+        Ok(Ok(())) => {}
+        Ok(Err(e)) => rep.violation("big/four-gib-stream", json!({"kind":"cli-rt","big":true}), e),
+        Err(_) => rep.violation("big/four-gib-stream", json!({"kind":"cli-rt","big":true}), "the streaming thread panicked".into()),
+    }
     rep.set_exhaustive(true);
     let _ = Tier::Quick;
 }
@@ -360,6 +457,40 @@ fn cli_pairs(rep: &Report) {
             }
         }
     });
+    // inputs whose reported size understates their content: a /proc file (st_size 0) given as FILE must be encrypted in full
+    {
+        let proc_files = ["/proc/version", "/proc/self/limits"];
+        proc_files.par_iter().for_each(|pf| {
+            rep.eval(1);
+            rep.nontrivial(format!("cli-procfile-{}", pf).as_bytes());
+            let attempt = || -> Result<(), String> {
+                let content = std::fs::read(pf).map_err(|e| format!("MACHINERY: cannot read {}: {}", pf, e))?;
+                let sc = Scratch::new();
+                let o = proc::run(&Cmd::new(&["password", "encrypt", pf, "-o", "ct.ktl", "--env-pass"]).env("KESTREL_PASSWORD", "procpw"), &sc.0);
+                o.well_behaved()?;
+                if !o.ok() {
+                    return Err(format!("password encrypt of {} failed: {}", pf, o.summary()));
+                }
+                let o = proc::run(&Cmd::new(&["password", "decrypt", "ct.ktl", "-o", "back.bin", "--env-pass"]).env("KESTREL_PASSWORD", "procpw"), &sc.0);
+                o.well_behaved()?;
+                let back = sc.read("back.bin").unwrap_or_default();
+                // /proc/self/limits belongs to the reading process; compare its length class and a stable prefix instead
+                let same = if pf.contains("self") { back.len() > 100 && back.starts_with(&content[..20]) } else { back == content };
+                if !o.ok() || !same {
+                    return Err(format!("round trip of the FILE argument {} ({} bytes when read, reported size 0) returns {} bytes", pf, content.len(), back.len()));
+                }
+                Ok(())
+            };
+            if let Err(e) = attempt() {
+                if e.starts_with("MACHINERY") {
+                    crate::report::machinery(&e);
+                }
+                if let Err(e2) = attempt() {
+                    rep.violation("cli/roundtrip-of-a-file-whose-size-is-reported-as-zero", json!({"kind":"cli-rt","file":pf}), e2);
+                }
+            }
+        });
+    }
     rep.sample(json!({"kind":"cli-pair","encrypt":"KESTREL_PASSWORD='a\\n'","decrypt":"KESTREL_PASSWORD='a'","expect":"exit 1, no output file"}));
 }
 
